@@ -69,8 +69,6 @@ def wrappers_for(cfg, props, tier, types=None, scalars=True, only_ops=None):
                     if kind == 'f' and bits < 32:
                         continue
                     T = VT(1, bits, kind)
-                    if types and ('s' + T.name) not in types and not any(t.startswith('s') for t in types) is False:
-                        pass
                     nm = 'w_s%d%s__%s' % (bits, kind, o.name)
                     out.append(make(nm, o, T, True, None))
     return out
@@ -87,7 +85,8 @@ def make(nm, o, T, scalar, K):
     expr = tmpl.format(*exprs, K=K, V='avel::' + T.name, M='avel::' + T.mask)
     rty, rexpr = ret_decl(o.ret, T, scalar, expr)
     line = 'VW %s %s(%s) { return %s; }' % (rty, nm, ', '.join(decls), rexpr)
-    return {'name': nm, 'line': line, 'op': o.name, 'type': T.name, 'scalar': scalar, 'K': K}
+    return {'name': nm, 'line': line, 'op': o.name, 'type': T.name, 'scalar': scalar, 'K': K,
+            'params': [d.rsplit(' ', 1)[0] for d in decls], 'rtype': rty}
 
 
 def source(wrappers, extra_includes=()):
